@@ -106,7 +106,8 @@ def sig(node):
         )
     if k == "mask":
         ins, out = sig(node["inner"])
-        return [["B"]] + list(ins), ["M", out]
+        # masks do not nest: Mask.build folds the flags together
+        return [["B"]] + list(ins), (out if out[0] == "M" else ["M", out])
     if k == "dimap":
         return node["ptypes"], node["out"]
     if k == "map":
@@ -252,7 +253,9 @@ def stack_typed(vals, t):
     if k == "M":
         return RMask(
             np.array([bool(np.all(v.flag)) for v in vals], dtype=bool),
-            stack_typed([v.value for v in vals], t[1]),
+            stack_typed(
+                [v.value if v.value is not None else zero_of(t[1]) for v in vals], t[1]
+            ),
         )
     if k == "V":
         inner = [v for v in vals]
@@ -261,6 +264,25 @@ def stack_typed(vals, t):
         return _stack_arrays(inner)
     if k == "D":
         return {kk: stack_typed([v[kk] for v in vals], s) for kk, s in t[1].items()}
+    raise ValueError(t)
+
+
+def zero_of(t):
+    k = t[0]
+    if k == "F":
+        return 0.0
+    if k == "I":
+        return 0
+    if k == "B":
+        return False
+    if k == "N":
+        return None
+    if k == "T":
+        return tuple(zero_of(s) for s in t[1])
+    if k == "M":
+        return RMask(False, zero_of(t[1]))
+    if k == "V":
+        return stack_typed([zero_of(t[2])] * t[1], t[2])
     raise ValueError(t)
 
 
@@ -508,6 +530,8 @@ def run(node, args, ctx, prefix=()):
         if not flag:
             return 0.0, RMask(False, None)
         lp, v = run(node["inner"], list(args[1:]), ctx, prefix)
+        if isinstance(v, RMask):
+            return lp, v  # flags fold: True and inner flag
         return lp, RMask(True, v)
     if k == "dimap":
         env = Env(list(args), [])
@@ -594,3 +618,44 @@ def _hashable(v):
     if isinstance(v, np.ndarray):
         return tuple(v.tolist())
     return v
+
+
+def switch_map(node, prefix=(), under=(), direct=True, acc=None, counter=None):
+    """address -> tuple of (switch id, is_direct) for every switch-like node the
+    address lies under.  `direct` switches are those whose index is literally the
+    first root argument (root switch / or_else, possibly below `map` wrappers);
+    for them the index is tagged UnknownChange iff that argument changed.  All
+    other switch-like nodes get their index from an expression or a sampled
+    value, and the tag they see depends on change propagation."""
+    if acc is None:
+        acc = {}
+        counter = [0]
+    k = node["k"]
+    if k == "dist":
+        acc.setdefault(prefix, set()).update(under)
+        return acc
+    if k == "static":
+        for s in node["stmts"]:
+            switch_map(s["callee"], prefix + addr_of(s), under, False, acc, counter)
+        return acc
+    if k in ("vmap", "repeat") or k in SCAN_LIKE:
+        for i in range(node["n"]):
+            switch_map(node["inner"], prefix + (i,), under, False, acc, counter)
+        return acc
+    if k in ("switch", "or_else", "mix"):
+        counter[0] += 1
+        sid = counter[0]
+        brs = node["branches"] if k != "or_else" else [node["a"], node["b"]]
+        u2 = under + ((sid, bool(direct and k != "mix")),)
+        if k == "mix":
+            acc.setdefault(prefix + ("mixture_component",), set()).update(under)
+            for b in brs:
+                switch_map(b, prefix + ("component_sample",), u2, False, acc, counter)
+        else:
+            for b in brs:
+                switch_map(b, prefix, u2, False, acc, counter)
+        return acc
+    if "inner" in node:
+        switch_map(node["inner"], prefix, under, direct and k == "map", acc, counter)
+        return acc
+    raise ValueError(k)
